@@ -207,7 +207,10 @@ class Oracle:
         L = self.labels_of(md, lvs)
         n = md['name']
         if md['kind'] == 'counter':
-            fam['series'][(n + '_total', L)][0] += x
+            if op == 'reset':   # Counter.reset(): THIS worker's contribution is zero again; the others are untouched
+                fam['series'][(n + '_total', L)][0] = 0.0
+            else:
+                fam['series'][(n + '_total', L)][0] += x
         elif md['kind'] == 'summary':
             fam['series'][(n + '_count', L)][0] += 1
             fam['series'][(n + '_sum', L)][0] += x
@@ -428,6 +431,8 @@ class RealProc:
                 c.observe(x)
             elif op == 'settime':
                 c.set_to_current_time()
+            elif op == 'reset':
+                c.reset()
             else:
                 c.set(x)
         except Exception as e:  # noqa
@@ -507,6 +512,8 @@ class World:
         res.count('kind:' + (md['kind'] if md['kind'] != 'gauge' else 'gauge-' + md['mode']))
         if op == 'settime':
             res.count('settime:' + md.get('mode', ''))
+        if op == 'reset':
+            res.count('reset:' + ('labelled-child' if md['labels'] else 'unlabelled'))
         try:
             if op == 'create':
                 p.metric(mi)
@@ -518,7 +525,10 @@ class World:
             self.oracle.create_child(pid, mi, lvs)
             if op == 'child':
                 return
-            x = lib.from_bits(st[4])
+            if op == 'reset' and md['kind'] != 'counter':
+                res.count('reset:skipped-not-a-counter')    # (shrunk / malformed lists)
+                return
+            x = lib.from_bits(st[4]) if len(st) > 4 else 0.0
             t = lib.from_bits(st[5]) if len(st) > 5 else self.sim.clock.now
             raised = p.update(mi, lvs, op, x, t)
             expect = 'RuntimeError' if (is_mostrecent(md) and op in ('inc', 'dec')) else None
@@ -771,7 +781,29 @@ def foreign_corpus():
     S.append([['obs', 1, 1, ['a'], B(1.0)], ['obs', 2, 1, ['a'], B(2.0)], ['obs', 2, 1, ['b'], B(1000000.0)], ['child', 3, 1, ['a']],
               ['obs', 1, 4, ['x', 'a'], B(1.0)], ['obs', 2, 4, ['x', 'a'], B(2.5)], ['obs', 3, 4, ['', 'b'], B(8.0)],
               ['dead', 2], ['obs', 1, 1, ['a'], B(0.5)], F(5, 4, ['x', 'a'], [('1', 1.0), ('inf', 1.0)], 2.0)])
-    return [{'pool': pool, 'steps': s} for s in S] + le_label_corpus() + settime_corpus()
+    return [{'pool': pool, 'steps': s} for s in S] + le_label_corpus() + settime_corpus() + reset_corpus()
+
+
+def reset_corpus():
+    """Counter.reset(): that worker's contribution to the series is zero again, later incs count from zero"""
+    c, cl = mdef('counter', 'c'), mdef('counter', 'cl', ['l'])
+    other = [mdef('summary', 's'), mdef('histogram', 'h', (), '', 'small'), mdef('gauge', 'g', (), 'livesum')]
+    I = lambda pid, mi, lvs, x: ['inc', pid, mi, lvs, B(x)]
+    R = lambda pid, mi, lvs: ['reset', pid, mi, lvs]
+    S = [
+        [I(1, 0, [], 3.0), R(1, 0, [])],                                                        # -> 0
+        [I(1, 0, [], 3.0), R(1, 0, []), I(1, 0, [], 2.0)],                                      # -> 2
+        [I(1, 0, [], 3.0), I(2, 0, [], 4.0), R(1, 0, []), I(2, 0, [], 1.0), I(1, 0, [], 0.5)],  # only the other's part remains
+        [['create', 1, 0], R(1, 0, []), ['child', 2, 1, ['x']], R(2, 1, ['x']), R(3, 1, ['y'])],  # never incremented: stays 0, exists
+        [I(1, 1, ['x'], 1.0), I(1, 1, ['y'], 2.0), I(2, 1, ['x'], 4.0), R(1, 1, ['x']), I(1, 1, ['x'], 8.0), R(2, 1, ['y'])],   # siblings untouched
+        [I(7, 0, [], 5.0), I(2, 0, [], 1.0), ['dead', 7], ['reuse', 7], R(7, 0, []), I(7, 0, [], 1.0)],     # the FILE cell of the reused pid
+        [I(1, 0, [], 1.0), I(2, 0, [], 2.0), I(3, 0, [], 4.0), R(2, 0, []), ['dead', 2], R(3, 0, []), ['reuse', 2], I(2, 0, [], 8.0),
+         R(1, 0, []), R(1, 0, []), I(1, 0, [], 16.0)],
+        [I(1, 0, [], 3.0), ['obs', 1, 2, [], B(1.0)], ['obs', 1, 3, [], B(2.5)], ['set', 1, 4, [], B(7.0), B(10.0)], R(1, 0, []),
+         ['obs', 2, 2, [], B(2.0)], I(2, 0, [], 1.0), R(2, 0, []), ['obs', 2, 3, [], B(1.0)], ['dead', 1]],     # neighbours share nothing
+        [I(1, 0, [], NAN), I(2, 0, [], INF), R(1, 0, []), I(1, 0, [], 1.0), R(2, 0, []), I(2, 0, [], 2.0)],   # reset clears NaN / inf
+    ]
+    return [{'pool': [c, cl] + other, 'steps': s} for s in S]
 
 
 def settime_corpus():
@@ -904,7 +936,10 @@ def gen_scenario(rng, all_modes, long=False):
         elif r < 0.25:
             steps.append(['child', pid, mi, lvs])
         elif md['kind'] == 'counter':
-            steps.append(['inc', pid, mi, lvs, B(gen_value(rng, md, 'inc'))])
+            if rng.random() < 0.06:
+                steps.append(['reset', pid, mi, lvs])
+            else:
+                steps.append(['inc', pid, mi, lvs, B(gen_value(rng, md, 'inc'))])
         elif md['kind'] in ('summary', 'histogram'):
             steps.append(['obs', pid, mi, lvs, B(gen_value(rng, md, 'obs'))])
         else:
@@ -948,7 +983,7 @@ def gen_fork_scenario(rng, all_modes):
                 continue
             lvs = [rng.choice(LABEL_VALUES[:3]) for _ in md['labels']]
             if md['kind'] == 'counter':
-                ops.append(['inc', w, mi, lvs, B(gen_value(rng, md, 'inc'))])
+                ops.append(['reset', w, mi, lvs] if rng.random() < 0.06 else ['inc', w, mi, lvs, B(gen_value(rng, md, 'inc'))])
             elif md['kind'] in ('summary', 'histogram'):
                 ops.append(['obs', w, mi, lvs, B(gen_value(rng, md, 'obs'))])
             else:
@@ -971,7 +1006,7 @@ def oracle_apply(oracle, pid, st):
     lvs = lvs_of(md, st[3])
     oracle.create_child(pid, mi, lvs)
     if op != 'child':
-        oracle.update(pid, mi, lvs, op, lib.from_bits(st[4]), lib.from_bits(st[5]) if len(st) > 5 else 0.0)
+        oracle.update(pid, mi, lvs, op, lib.from_bits(st[4]) if len(st) > 4 else 0.0, lib.from_bits(st[5]) if len(st) > 5 else 0.0)
 
 
 def run_fork_scenario(scen):
@@ -999,7 +1034,7 @@ def run_fork_scenario(scen):
                         elif st[0] == 'child':
                             proc.child(st[2], lvs_of(md, st[3]))
                         else:
-                            raised = proc.update(st[2], lvs_of(md, st[3]), st[0], lib.from_bits(st[4]),
+                            raised = proc.update(st[2], lvs_of(md, st[3]), st[0], lib.from_bits(st[4]) if len(st) > 4 else 0.0,
                                                  lib.from_bits(st[5]) if len(st) > 5 else 1.0)
                             expect = 'RuntimeError' if (is_mostrecent(md) and st[0] in ('inc', 'dec')) else None
                             if raised != expect:
@@ -1172,7 +1207,7 @@ def run(ctx):
     all_modes = modes()
     ctx.rule = ('scenario = metric pool (counters, summaries, histograms of 5 bucket layouts, gauges of the 10 modes, labelled or not) '
                 '+ step list over 1-4 simulated processes (create / child / inc / dec / observe / set at a scripted time / '
-                'Gauge.set_to_current_time at a scripted time / mark_process_dead / pid reuse / foreign histogram store file with non-canonical le spellings, written through the '
+                'Gauge.set_to_current_time at a scripted time / Counter.reset / mark_process_dead / pid reuse / foreign histogram store file with non-canonical le spellings, written through the '
                 'library store); label names before and after "le"; hand-written corpus per mode first, then seeded random scenarios; one case = '
                 'one collection point (a collection follows every step); non-trivial when >= 2 processes hold data or a '
                 'death/reuse happened; distinct by the canonical collected output')
